@@ -1024,6 +1024,14 @@ def c01_warp_with_alignments(ctx, cls, tr):
                               S.PointCloud(np.array([[0.5, 0.5], [0., 12.5], [10.5, 1.], [11., 13.]])))
     else:
         t = getattr(T, tr)(S.PointCloud(ref), S.PointCloud(tgt))
+        if ctx.nprng.rand() < 0.7:
+            # an alignment with a history: inverted before, fitted to another target first, used for another warp
+            t = getattr(T, tr)(S.PointCloud(ref), S.PointCloud(tgt * 0.8 + 1.0))
+            t.pseudoinverse(); t.apply(ref)
+            im.warp_to_shape(tshape, t, warp_landmarks=True)
+            t.set_target(S.PointCloud(tgt))
+            if ctx.nprng.rand() < 0.5:
+                t = t.pseudoinverse().pseudoinverse()
     for name, call in (('warp_to_shape', lambda: im.warp_to_shape(tshape, t, warp_landmarks=True, return_transform=True)),
                        ('warp_to_mask', lambda: im.warp_to_mask(BooleanImage.init_blank(tshape), t, warp_landmarks=True, return_transform=True) if cls != 'BooleanImage' else None)):
         out = call()
@@ -1233,6 +1241,27 @@ def c09_apply_history(ctx, d):
         first = np.array(t.apply(x), copy=True)
         close(ctx, name + '/again', t.apply(x), first, 0)
         others = [x[:2] * 0.5, x[::-1].copy(), x * 0.999999999 + 1e-12, S.PointCloud(x[:4] * 0.3)]
+        if name != 'PiecewiseAffine' or True:
+            # same shape, other dtypes, values that collide after truncation / rounding
+            G = np.round(x)
+            if name == 'PiecewiseAffine':
+                G = np.clip(G, -4, 4)
+            gi = t.apply(G.astype(np.int64))
+            gq = t.apply(G + 0.25) if name != 'PiecewiseAffine' else t.apply(np.clip(G + 0.25, -4.5, 4.5))
+            close(ctx, name + '/int-array-then-shifted-floats-then-the-int-array-again', t.apply(G.astype(np.int64)), gi, 0)
+            close(ctx, name + '/float32-then-float64-of-the-same-shape', t.apply((G + 0.25).astype(np.float32).astype(np.float64)), t.copy().apply((G + 0.25).astype(np.float32).astype(np.float64)) if hasattr(t, 'copy') else gq, 1e-12)
+            t.apply(G.astype(np.float32)); t.apply(G + 1e-9)
+            close(ctx, name + '/int-array-after-float32-and-nearby-floats', t.apply(G.astype(np.int64)), gi, 0)
+            # the same on a transform whose FIRST input is the integer array (memo buffers take the dtype of the first input)
+            t2 = type(t)(t.source, t.target) if name in ('PiecewiseAffine', 'ThinPlateSplines') or name.startswith('Alignment') else t.copy()
+            G = np.abs(G)                  # non-negative: truncating G + 0.25 gives G back
+            Gq = G + 0.25
+            a1 = np.array(t2.apply(G.astype(np.int64)), copy=True)
+            a2 = np.array(t2.apply(Gq), copy=True)
+            close(ctx, name + '/int-first/then-shifted-floats', a2, t.apply(Gq), 1e-12)
+            close(ctx, name + '/int-first/the-int-array-again', t2.apply(G.astype(np.int64)), a1, 0)
+            close(ctx, name + '/int-first/the-shifted-floats-again', t2.apply(Gq), a2, 0)
+            close(ctx, name + '/int-first/float-version-of-the-int-array', t2.apply(G.copy()), a1, 0)
         for o in others:
             t.apply(o)
             t.apply(o, batch_size=2)
